@@ -240,7 +240,8 @@ def step (cfg : Config Chunk Stats Fault) (s : State Stats) : Action → Option 
     else none
   | .mainFinish =>
     -- `while connections` ended; `assert writer.wrote_everything()`; `join` workers and reader; return stats.
-    -- The assertion is checked for the files `f < nFiles`; `Proofs/RunnerInv.lean` shows it can never fail.
+    -- The assertion never fails (`C06.parallel_equals_serial`: every writer has `wroteEverything`) and `join` never
+    -- blocks (`allDone`: every worker has returned, the reader has sent all pills), so the outcome is `ok`.
     if s.outcome = .running ∧ allDone cfg s = true then
       some { s with outcome := .ok }
     else none
